@@ -81,6 +81,13 @@ func (g *gen) nilCheck(v Val, pos token.Pos, what string) {
 func (g *gen) instr(b *ssa.BasicBlock, idx int, ins ssa.Instruction) {
 	switch ins := ins.(type) {
 	case *ssa.DebugRef:
+		if obj := ins.Object(); obj != nil {
+			if _, isVar := obj.(*types.Var); isVar {
+				if _, known := g.vals[ins.X]; known || isConstLike(ins.X) {
+					g.debugVals[obj.Name()] = debugRef{ins.X, ins.IsAddr}
+				}
+			}
+		}
 		return
 	case *ssa.Alloc:
 		pt := ins.Type().(*types.Pointer).Elem()
@@ -259,7 +266,84 @@ func (g *gen) goInstr(ins *ssa.Go) {
 	g.unsupportedf("go statement (concurrency is not modelled)")
 }
 
-func (g *gen) frameCheck(addr Val, pos token.Pos) {}
+// frameCheck: a write must hit a location named in `assigns` or an object allocated by this function.
+func (g *gen) frameCheck(addr Val, pos token.Pos) {
+	if !g.frameMode {
+		return
+	}
+	var p *Place
+	if addr.Place != nil {
+		p = addr.Place
+	} else if addr.Typ != nil {
+		// whole-object write through a plain reference (struct / cell / map)
+		switch u := addr.Typ.Underlying().(type) {
+		case *types.Pointer:
+			if _, ok := structOf(u.Elem()); ok {
+				p = &Place{Kind: plField, Ref: addr.T, Struct: g.st.structName(u.Elem()), Field: "*", Elem: u.Elem()}
+			} else {
+				p = &Place{Kind: plCell, Ref: addr.T, Elem: u.Elem()}
+			}
+		case *types.Map:
+			p = &Place{Kind: plMap, Ref: addr.T, MapT: addr.Typ}
+		}
+	}
+	if p == nil {
+		return
+	}
+	g.frameCheckPlace(p, pos, g.label(pos, "write", "stmt", "expr"))
+}
+
+func (g *gen) placeRef(p *Place) string {
+	if p.Kind == plElem {
+		return p.Base
+	}
+	return p.Ref
+}
+
+// allowedWrite builds the condition under which writing place p respects the frame.
+func (g *gen) allowedWrite(p *Place) string {
+	ref := g.placeRef(p)
+	conds := []string{not(g.alive0Term(ref))}
+	for _, a := range g.assignPlaces {
+		if a.Kind != p.Kind {
+			continue
+		}
+		switch p.Kind {
+		case plField:
+			if a.Struct == p.Struct && (a.Field == p.Field || a.Field == "*") {
+				conds = append(conds, eq(a.Ref, p.Ref))
+			}
+		case plCell:
+			if g.st.sortOf(a.Elem) == g.st.sortOf(p.Elem) {
+				conds = append(conds, eq(a.Ref, p.Ref))
+			}
+		case plElem:
+			if g.st.sortOf(a.Elem) == g.st.sortOf(p.Elem) {
+				if a.Idx == "*" {
+					conds = append(conds, eq(a.Base, p.Base))
+				} else if p.Idx != "*" {
+					conds = append(conds, and(eq(a.Base, p.Base), eq(a.Idx, p.Idx)))
+				}
+			}
+		case plMap:
+			conds = append(conds, eq(a.Ref, p.Ref))
+		}
+	}
+	return or(conds...)
+}
+
+func (g *gen) frameCheckPlace(p *Place, pos token.Pos, label string) {
+	if !g.frameMode {
+		return
+	}
+	ref := g.placeRef(p)
+	for _, a := range g.allocs {
+		if a == ref {
+			return // trivially fresh
+		}
+	}
+	g.oblige("frame", label, g.allowedWrite(p), pos, g.frameProps)
+}
 
 func (g *gen) binop(ins *ssa.BinOp) {
 	x, y := g.val(ins.X), g.val(ins.Y)
@@ -665,13 +749,10 @@ func (g *gen) ret(ins *ssa.Return) {
 	for _, en := range g.ctr.Ensures {
 		t, err := g.evalBool(env, en.E)
 		if err != nil {
-			g.unsupportedf("ensures %s: %v", en.Label, err)
+			g.contractErr("ensures", en.Label, err)
 			continue
 		}
 		g.oblige("post", en.Label, t, ins.Pos(), en.Props)
-	}
-	if g.ctr.HasAssign {
-		g.frameObligations(env, ins.Pos())
 	}
 }
 
@@ -686,4 +767,17 @@ func (g *gen) bindResults(env *specEnv, sig *types.Signature, rs []Val) {
 	if len(rs) >= 1 {
 		env.vars["result"] = rs[0]
 	}
+}
+
+type debugRef struct {
+	v      ssa.Value
+	isAddr bool
+}
+
+func isConstLike(v ssa.Value) bool {
+	switch v.(type) {
+	case *ssa.Const, *ssa.Global, *ssa.Function:
+		return true
+	}
+	return false
 }
